@@ -214,6 +214,10 @@ def sched_scenarios(tier, runs=None):
         out.append(sched("rclose-late", [("w", [op("write", "a", 6), op("flush", "a"), op("write", "a", 1), op("flush", "a")]),
                                          ("q", [op("close", "b"), op("inject", "a", 0, kind="closedsid"), op("inject", "a", 0, kind="closedsid")])],
                          carrier=car, maxpre=2, maxruns=mr))
+        # ... while a Read of the writing end is blocked: it must see end-of-file whether or not the peer's close finds a
+        # local write in flight
+        out.append(sched("rclose-read", [("w", [op("write", "a", 6), op("flush", "a"), op("write", "a", 1), op("flush", "a")]),
+                                         ("r", [op("readall", "a", 0, buf=8)]), ("q", [op("close", "b")])], carrier=car, maxpre=2, maxruns=mr))
         # Read against the local Close
         out.append(sched("readclose", [("r", [op("readall", "b", 0, buf=8)]), ("q", [op("close", "b")])], carrier=car, maxpre=2, maxruns=mr))
     # opening under the scheduler: the accepting side writes at once
